@@ -250,7 +250,6 @@ func (st *stream) recordBytesRead(n int) error {
 	}
 	st.lim -= int64(n)
 	if st.lim < 0 {
-		st.stream = nil // panic if we try to read again
 		return &connectionError{
 			code:    errH3FrameError,
 			message: "invalid HTTP/3 frame",
